@@ -771,6 +771,59 @@ func boundaryShifts(img []byte) []h.Mutation {
 	return ms
 }
 
+// forgedLegacy: an object's content is altered and its legacy signature replaced by a message
+// naming the new digest, carrying the signature block of another object's genuine signature.
+func forgedLegacy(img []byte) []h.Mutation {
+	si, err := h.DecodeImage(img)
+	if err != nil {
+		return nil
+	}
+	marker := []byte("-----BEGIN PGP SIGNATURE-----")
+	tag := []byte("SIFHASH:\n")
+	var sigs []h.SDesc
+	for _, d := range si.Descs {
+		if d.Used && d.Type == h.DataSignature && !d.LinkIsGroup() {
+			sigs = append(sigs, d)
+		}
+	}
+	var ms []h.Mutation
+	for _, sa := range sigs {
+		for _, sb := range sigs {
+			if sa.LinkID() >= sb.LinkID() || len(ms) >= 2 {
+				continue
+			}
+			var obj *h.SDesc
+			for i, d := range si.Descs {
+				if d.Used && d.ID == sb.LinkID() && d.Type != h.DataSignature && d.Size > 0 {
+					obj = &si.Descs[i]
+				}
+			}
+			ca, cb := h.SectionBytes(img, sa), h.SectionBytes(img, sb)
+			ia, ib, it := bytes.Index(ca, marker), bytes.Index(cb, marker), bytes.Index(cb, tag)
+			ht, known := hashByType[int(h.HashTypeOf(sb))]
+			if obj == nil || ia < 0 || ib < 0 || it < 0 || !known || !ht.Available() {
+				continue
+			}
+			m := bytes.Clone(img)
+			m[obj.Off] ^= 1
+			hh := ht.New()
+			hh.Write(m[obj.Off : obj.Off+obj.Size])
+			hexd := []byte(fmt.Sprintf("%x", hh.Sum(nil)))
+			p := it + len(tag)
+			if p+len(hexd) > ib {
+				continue
+			}
+			forged := append(append(append(bytes.Clone(cb[:p]), hexd...), cb[p+len(hexd):ib]...), ca[ia:]...)
+			if len(forged) != len(cb) {
+				continue
+			}
+			copy(m[sb.Off:], forged)
+			ms = append(ms, h.Mutation{What: fmt.Sprintf("object %d altered; its signature %d now names the new digest under the signature block of signature %d", obj.ID, sb.ID, sa.ID), Img: m})
+		}
+	}
+	return ms
+}
+
 func putLE64(b []byte, off int, v uint64) {
 	for i := 0; i < 8; i++ {
 		b[off+i] = byte(v >> (8 * uint(i)))
@@ -900,12 +953,29 @@ func legacyFindings(k *h.Keys, base []byte, c *h.VCase, desc, class string) []h.
 			}
 			break
 		}
+		// each covered object's content is one of the signed contents (as multisets: the table
+		// order of equal-content or empty objects is not protected); the digest is over the
+		// concatenation, so a moved boundary with the same concatenation is the known class F9
+		count := map[string]int{}
+		for _, x := range orig {
+			count[string(x)]++
+		}
+		for _, x := range cur {
+			count[string(x)]--
+		}
 		same := len(cur) == len(orig)
-		for i := 0; same && i < len(cur); i++ {
-			same = bytes.Equal(cur[i], orig[i])
+		for _, n := range count {
+			if n != 0 {
+				same = false
+			}
 		}
 		if resolved && !same {
-			bad("legacy verification accepted objects %v whose contents are not, object by object, what was signed", r.Verified)
+			if bytes.Equal(bytes.Join(cur, nil), bytes.Join(orig, nil)) {
+				out = append(out, h.Finding{Property: "C16", Case: c.ID, Class: "F9",
+					What: fmt.Sprintf("legacy verification accepted objects %v whose contents, object by object, are not what was signed (the concatenation is)", r.Verified), Input: desc})
+			} else {
+				bad("legacy verification accepted objects %v whose contents are not what was signed", r.Verified)
+			}
 		}
 	}
 	return out
@@ -937,6 +1007,7 @@ func runLegacy(s *summary, k *h.Keys, root *h.Rng, n int, thorough bool, addCase
 			ms := append(h.BitFlips(r, lb.img, 1), h.Catalogue(r, lb.img)...)
 			ms = sample(r, ms, n)
 			ms = append(ms, boundaryShifts(lb.img)...)
+			ms = append(ms, forgedLegacy(lb.img)...)
 			for _, m := range ms {
 				d2 := desc + "; " + m.What
 				c2 := addCase(m.Img, lb.img, vo, d2)
